@@ -36,7 +36,7 @@ PROPS = {
     ),
     "C03": dict(
         domains=[("codec", "decode", 12000, 200000), ("codec", "frame", 4000, 60000), ("codec", "build", 2000, 20000),
-                 ("resource", "claim", 1, 1), ("resource", "nest", 1, 1)],
+                 ("resource", "claim", 1, 1), ("resource", "nest", 1, 1), ("resource", "retain", 1, 1)],
         thorough_extra=[("resource", "nestdeep", 1, 1)],
         relevant=["C03:"],
         theorems=['DV.Props.C03.C03_avp_nopanic', 'DV.Props.C03.C03_avps_nopanic', 'DV.Props.C03.C03_header_nopanic', 'DV.Props.C03.C03_message_nopanic', 'DV.Props.C03.C03_short_length_rejected', 'DV.Props.C03.C03_pretty_asserts', 'DV.Props.C03.C03_serialize_fits', 'DV.Props.C03.C03_serialize_message_fits', 'DV.Props.C03.C03_gen',
@@ -133,7 +133,7 @@ PROPS = {
                               "Model.ConnWrite: writer objects and the transports they point at (Server.newConn, response.Write); that each connection allocates its own bufio.Writer is the regenerated fact Gen.connBufferSources"],
     ),
     "C06": dict(
-        domains=[("alias", "leaf", 4000, 60000), ("alias", "hist", 1500, 20000)],
+        domains=[("alias", "leaf", 4000, 60000), ("alias", "hist", 1500, 20000), ("smserver", "hist", 800, 10000)],
         relevant=["C06:"],
         theorems=["DV.Props.C06."+t for t in ["C06_owned","C06_unchanged","C06_private_buffer","C06_gen","C06_current","C06_alias_counterexample"]],
         gen_obligations=["Gen.sliceKinded","Gen.decoderAliasing","Gen.groupedAVPFields","Gen.bodyBuffer"],
